@@ -84,7 +84,12 @@ def run(prop, tier, seed, scratch, replay=None):
     res.add_report(rep)
     if rep["traces"] != bfs["ntraces"]:
         res.errors.append("driver ran %d of %d transaction sets" % (rep["traces"], bfs["ntraces"]))
+    # binding self-test: with the set of valid orders altered, the real sort's answer must be reported
+    st = vlib.binding_selftest(scratch, drv, lambda i, o: ["-in", i, "-out", o, "-workers", 4, "-seed", seed, "-reps", 20,
+                                                           "-store-orders", 1, "-store-reps", 2],
+                               cases, [("top.valid", lambda v: [list(reversed(v[0]))])], where=lambda c: c.get("nvalid") == 1 and c.get("n", 0) >= 2)
     res.coverage = {
+        "binding_selftest": st,
         "states": bfs["distinct"], "transitions": bfs["generated"],
         "traces_validated_against_impl": rep["traces"],
         "evaluations": rep["checks"], "distinct_nontrivial": rep["distinct_nontrivial"],
